@@ -8,7 +8,10 @@ package main
 // as a Coq term; the model must reproduce every observation.  The oracle
 // (independent of the model): after every operation the sum over ALL accounts of
 // the bank equals the recorded supply per denomination, and the distribution
-// account covers the community pool plus the outstanding rewards.
+// account covers the community pool plus the outstanding rewards; and the registered
+// invariant distribution/module-account (equality), when it held before an operation
+// that does not pay the distribution account directly, holds after it.  Burns through
+// the Haqq bank keeper come with one coin ("burn") or a coin list ("burncoins").
 
 import (
 	"encoding/json"
@@ -24,6 +27,7 @@ import (
 	authtypes "github.com/cosmos/cosmos-sdk/x/auth/types"
 	sdkvesting "github.com/cosmos/cosmos-sdk/x/auth/vesting/types"
 	banktypes "github.com/cosmos/cosmos-sdk/x/bank/types"
+	distrkeeper "github.com/cosmos/cosmos-sdk/x/distribution/keeper"
 	distrtypes "github.com/cosmos/cosmos-sdk/x/distribution/types"
 	govtypes "github.com/cosmos/cosmos-sdk/x/gov/types"
 	stakingtypes "github.com/cosmos/cosmos-sdk/x/staking/types"
@@ -42,8 +46,14 @@ import (
 
 func init() { register("bankops", bankopsDriver) }
 
+type boCoin struct {
+	D int    `json:"d"` // denomination index
+	X string `json:"x"`
+}
+
 type boOp struct {
-	K      string `json:"k"` // send mint burn coinomics daofund liquidate redeem convertcoin converterc20 setbalance
+	K      string `json:"k"` // send mint burn burncoins coinomics daofund liquidate redeem convertcoin converterc20 setbalance
+	Cs     []boCoin `json:"cs,omitempty"` // burncoins: the coin list (several denominations)
 	A      int    `json:"a"` // account (tracked index: 0..3 users, 100.. modules)
 	C      int    `json:"c,omitempty"`
 	D      int    `json:"d,omitempty"` // denomination index
@@ -67,7 +77,7 @@ var boModules = []struct {
 	{108, erc20types.ModuleName}, {109, evmtypes.ModuleName},
 }
 
-const boND = 6 // denominations 0 = aISLM, 1 = utest, 2.. = aLIQUID0..3
+const boND = 9 // denominations 0 = aISLM, 1 = utest, 2..5 = aLIQUID0..3, 6..8 = the further genesis denominations (ibc/…, USDX, zcoin)
 
 func boDenom(d int) string {
 	switch {
@@ -75,8 +85,23 @@ func boDenom(d int) string {
 		return utils.BaseDenom
 	case d == 1:
 		return testDenom
+	case d >= 6 && d < 6+len(bhExtraDenoms):
+		return bhExtraDenoms[d-6]
 	}
 	return fmt.Sprintf("aLIQUID%d", d-2)
+}
+
+// boCoins builds the coin list of a burncoins operation AS WRITTEN (zero amounts and repeated denominations
+// stay, the bank has to refuse them), in the order of the denomination strings, which is the order every
+// caller of the bank presents (the model does not know the strings, see Bank/InvariantModel.v).
+func boCoins(cs []boCoin) (sdk.Coins, []boCoin) {
+	sorted := append([]boCoin{}, cs...)
+	sort.SliceStable(sorted, func(i, j int) bool { return boDenom(sorted[i].D) < boDenom(sorted[j].D) })
+	out := sdk.Coins{}
+	for _, c := range sorted {
+		out = append(out, sdk.Coin{Denom: boDenom(c.D), Amount: intA(c.X)})
+	}
+	return out, sorted
 }
 
 func boAcc(a int) sdk.AccAddress {
@@ -112,7 +137,7 @@ func boBaseEnv() *boEnv {
 	if boBase != nil {
 		return boBase
 	}
-	g := bhGenesis{NVal: 3, MaxVals: 4, Coinomics: true, Window: 8, UnbondSecs: 100, VoteSecs: 30}
+	g := bhGenesis{NVal: 3, MaxVals: 4, Coinomics: true, Window: 8, UnbondSecs: 100, VoteSecs: 30, Extra: true}
 	rep := newReplica(g, repOpts{})
 	h := &histRun{Rep: rep}
 	set := bhInitialValSet(g)
@@ -133,6 +158,10 @@ func boBaseEnv() *boEnv {
 	}
 	// governance holds deposits, the not-bonded pool holds unbonding tokens
 	must(a.BankKeeper.SendCoinsFromAccountToModule(ctx, bhUserAcc[0], govtypes.ModuleName, coinsOf(utils.BaseDenom, mulE18(1000))))
+	// ... in several denominations (gov accepts any denomination as deposit): the test coin and the further genesis denominations
+	must(a.BankKeeper.SendCoinsFromAccountToModule(ctx, bhUserAcc[0], govtypes.ModuleName, sdk.NewCoins(
+		sdk.NewCoin(testDenom, sdkmath.NewInt(300_000_000)), sdk.NewCoin(bhExtraDenoms[0], sdkmath.NewInt(1_000_000)),
+		sdk.NewCoin(bhExtraDenoms[1], sdkmath.NewInt(1_000_000)), sdk.NewCoin(bhExtraDenoms[2], sdkmath.NewInt(1_000_000)))))
 	_, err := a.StakingKeeper.Undelegate(ctx, bhUserAcc[0], valOper(0), sdk.NewDecFromBigInt(mulE18(100)))
 	must(err)
 	// users 1 and 2 hold coins that are vested but still locked (they can liquidate)
@@ -239,6 +268,24 @@ func (e *boEnv) oracle() string {
 	return ""
 }
 
+// distrInvariant evaluates the REGISTERED invariant distribution/module-account (balance of the module
+// account = outstanding rewards + community pool) on the state of the case.
+func (e *boEnv) distrInvariant() (msg string, broken bool) {
+	defer func() {
+		if x := recover(); x != nil {
+			msg, broken = fmt.Sprintf("panic: %v", x), true
+		}
+	}()
+	cctx, _ := e.Ctx.CacheContext()
+	return distrkeeper.ModuleAccountInvariant(e.Rep.App.DistrKeeper)(cctx)
+}
+
+// touchesDistr: operations of this driver that pay into or out of the distribution account directly, which no
+// message can do (the invariant is not expected to survive them).
+func (op boOp) touchesDistr() bool {
+	return op.A == 101 || ((op.K == "send" || op.K == "liquidate" || op.K == "redeem") && op.C == 101)
+}
+
 func (e *boEnv) apply(op *boOp) (ok bool, errs string) {
 	a := e.Rep.App
 	cctx, write := e.Ctx.CacheContext()
@@ -281,6 +328,10 @@ func (e *boEnv) apply(op *boOp) (ok bool, errs string) {
 		} else {
 			err = e.Bank.BurnCoins(cctx, boModName(op.A), coins)
 		}
+	case "burncoins":
+		var cs sdk.Coins
+		cs, op.Cs = boCoins(op.Cs)
+		err = e.Bank.BurnCoins(cctx, boModName(op.A), cs)
 	case "coinomics":
 		c2 := cctx.WithBlockTime(cctx.BlockTime().Add(time.Duration(op.DT) * time.Second))
 		before := a.BankKeeper.GetBalance(c2, boAcc(100), utils.BaseDenom).Amount
@@ -352,6 +403,12 @@ func (op boOp) coq() string {
 		return fmt.Sprintf("HMint %s %s %s", n(op.A), n(op.D), x)
 	case "burn":
 		return fmt.Sprintf("HBurn %s %s %s", n(op.A), n(op.D), x)
+	case "burncoins":
+		var cs []string
+		for _, c := range op.Cs {
+			cs = append(cs, fmt.Sprintf("(%s, %s)", n(c.D), coqZ(bigA(c.X))))
+		}
+		return fmt.Sprintf("HBurnCoins %s %s", n(op.A), coqList(cs))
 	case "coinomics":
 		return fmt.Sprintf("HCoinomicsMint %s", x)
 	case "daofund":
@@ -386,8 +443,20 @@ func boRunCase(id string, in boInput) Case {
 	tags := map[string]bool{}
 	for i := range in.Ops {
 		op := in.Ops[i]
+		_, brokenBefore := e.distrInvariant()
 		ok, errs := e.apply(&op)
 		in.Ops[i] = op
+		if msg, brokenAfter := e.distrInvariant(); brokenAfter && !brokenBefore && !op.touchesDistr() && oracle == "" {
+			oracle = fmt.Sprintf("after op %d (%s): registered invariant distribution/module-account held before and is broken now: %s", i, op.K, shortLog(msg))
+		}
+		if ok && op.K == "burncoins" {
+			if len(op.Cs) > 1 {
+				tags["burncoins-ok:several-denominations"] = true
+			}
+			if op.A == 102 || op.A == 103 || op.A == 104 {
+				tags[fmt.Sprintf("burncoins-ok:redirected:%d-coins", len(op.Cs))] = true
+			}
+		}
 		o := e.observe()
 		steps = append(steps, step{op, ok, errs, o})
 		cs = append(cs, fmt.Sprintf("(%s, %s, %s)", op.coq(), coqBool(ok), o.coq()))
@@ -443,16 +512,45 @@ func boGen(r *Rng) boInput {
 		switch k := r.Intn(100); {
 		case k < 12:
 			from := []int{0, 3, 0, 3, 105, 109}[r.Intn(6)]
-			d := r.Intn(2)
+			d := []int{0, 1, 0, 1, 6, 7, 8}[r.Intn(7)]
 			x := amt(50)
-			if d == 1 {
+			if d != 0 {
 				x = big.NewInt(int64(r.Intn(1_500_000_000))).String()
 			}
 			in.Ops = append(in.Ops, boOp{K: "send", A: from, C: boTracked()[r.Intn(14)], D: d, X: x})
 		case k < 20:
 			in.Ops = append(in.Ops, boOp{K: "mint", A: []int{105, 107, 108, 109}[r.Intn(4)], D: r.Intn(3), X: amt(50)})
-		case k < 38:
-			in.Ops = append(in.Ops, boOp{K: "burn", A: []int{102, 103, 104, 104, 102, 107, 108, 109}[r.Intn(8)], D: 0, X: amt(60)})
+		case k < 30:
+			in.Ops = append(in.Ops, boOp{K: "burn", A: []int{102, 103, 104, 104, 102, 107, 108, 109}[r.Intn(8)], D: []int{0, 0, 0, 1, 6 + r.Intn(3)}[r.Intn(5)], X: amt(60)})
+		case k < 40:
+			// a coin list in several denominations, mostly from governance (a deposit holds any denominations)
+			m := []int{104, 104, 104, 104, 104, 104, 104, 102, 103, 107, 108, 109}[r.Intn(12)]
+			ds := []int{0, 1, 6, 7, 8}
+			if m != 104 && r.Chance(60) {
+				ds = []int{0} // the other modules hold further denominations only if an earlier send brought them
+			}
+			for i := len(ds) - 1; i > 0; i-- {
+				j := r.Intn(i + 1)
+				ds[i], ds[j] = ds[j], ds[i]
+			}
+			var cs []boCoin
+			for _, d := range ds[:1+r.Intn(minInt(4, len(ds)))] {
+				x := big.NewInt(int64(1 + r.Intn(400_000))).String()
+				if d == 0 {
+					x = amt(60)
+				}
+				switch r.Intn(40) {
+				case 0:
+					x = "0" // an invalid list
+				case 1:
+					x = "3000000000" // more than the module holds: the whole list must be refused
+				}
+				cs = append(cs, boCoin{D: d, X: x})
+			}
+			if r.Chance(4) {
+				cs = append(cs, cs[0]) // a denomination twice
+			}
+			in.Ops = append(in.Ops, boOp{K: "burncoins", A: m, Cs: cs})
 		case k < 48:
 			in.Ops = append(in.Ops, boOp{K: "coinomics", DT: int64(1 + r.Intn(100000))})
 		case k < 56:
@@ -486,6 +584,13 @@ func boGen(r *Rng) boInput {
 		}
 	}
 	return in
+}
+
+func minInt(a, b int) int {
+	if a < b {
+		return a
+	}
+	return b
 }
 
 func bankopsDriver(cfg Config, out *Out) error {
